@@ -39,7 +39,9 @@ _add(
     " (==1 for losses/norms/embedding); every scale factor is tensor-value independent (taint); no in-place effect on"
     " an argument alias; every parameter is read or rejected; the docstring decorators, applied to probe objects, raise for"
     " non-default unsupported args; the result's dtype typestate (out-of-place promotion vs in-place receiver dtype) equals"
-    " that of the reference program. Schemas include degenerate sizes (pointwise conv, cross-attention, single-affine norms).",
+    " that of the reference program; no value of the input's dtype is squeezed through a fixed narrower float dtype"
+    " (precision typestate). Schemas include degenerate sizes (pointwise conv, cross-attention, one position, value head size"
+    " != query head size, 1-tuple conv arguments, class-probability targets, mismatched mse operands, single-affine norms).",
     TRUST + " Reference programs in usa/rules/c01.py state what each function mirrors. dtype/shape preservation follows from float x Tensor semantics.",
     AI + " + taint / ownership domains + sympy ratio with uninterpreted reference ops",
 )
